@@ -251,7 +251,7 @@ func stressInherit(r *hx.Run, f []string) {
 	guarded(r, "InheritFrom", strings.Join(f, " "), func() (o outcome) {
 		rng := hx.NewRng(seed)
 		src := reactive.NewVariable[int]().Init(rng.Range(0, 3))
-		v := reactive.NewVariable[int]()
+		v := reactive.NewVariable[int]().Init(rng.Range(-1, 2)) // may hold a value that the source's zero value has to overwrite
 		jobs := []func(){func() { v.InheritFrom(src) }}
 		for k := 0; k < writers; k++ {
 			wr, _ := rng.Fork()
@@ -836,6 +836,10 @@ func runStress(r *hx.Run, f []string) {
 		stressDVZero(r, f)
 	case "evictmax":
 		stressEvictMax(r, f)
+	case "ctorrace":
+		stressCtorRace(r, f)
+	case "onupdate":
+		stressOnUpdate(r, f)
 	default:
 		r.Line(strings.Join(f, " "), "bad-op")
 	}
